@@ -75,7 +75,30 @@ def core_expr(rng, names, depth):
     return a()
 
 
-def core_stmts(rng, names, depth, lines, ind, counter):
+def core_int(rng, names, depth):
+    """a well-typed integer expression of the core fragment (never a runtime error): for programs that must run to their end"""
+    if depth <= 0 or rng.random() < 0.3:
+        if names and rng.random() < 0.5:
+            return rng.choice(names)
+        return str(rng.choice([0, 1, 2, 3, 7, 63, 64, 255, 9223372036854775807]))
+    a = lambda: core_int(rng, names, depth - 1)
+    r = rng.random()
+    if r < 0.45:
+        return f"({a()} {rng.choice(['+', '-', '*', '&', '|', '^', '<<', '>>'])} {a()})"
+    if r < 0.55:
+        return f"({rng.choice(['-', '~'])}{a()})"
+    if r < 0.8:
+        cond = rng.choice([f"{a()} {rng.choice(['<', '<=', '>', '>=', '==', '!='])} {a()}", f"!({a()} < {a()})", f"({a()} < {a()}) && ({a()} != {a()})", f"({a()} > {a()}) || ({a()} == {a()})"])
+        return f"if {cond} {{ {a()} }} else {{ {a()} }}"
+    if r < 0.9:
+        return f"({a()} && {a()})" if rng.random() < 0.5 else f"({a()} || {a()})"
+    if names:
+        return f"({rng.choice(names)} = {a()})"
+    return a()
+
+
+def core_stmts(rng, names, depth, lines, ind, counter, core_expr=None):
+    core_expr = core_expr or globals()["core_expr"]
     """statements of the core fragment: let, expression statements, blocks, while loops (bounded counters);
     `names` = visible names (a block's names end with it)"""
     names = list(names)
@@ -90,7 +113,7 @@ def core_stmts(rng, names, depth, lines, ind, counter):
             lines.append(f"{ind}{core_expr(rng, names, 3)};")
         elif r < 0.82:
             lines.append(ind + "{")
-            core_stmts(rng, names, depth + 1, lines, ind + "  ", counter)
+            core_stmts(rng, names, depth + 1, lines, ind + "  ", counter, core_expr)
             lines.append(ind + "}")
         else:
             counter[0] += 1
@@ -100,15 +123,16 @@ def core_stmts(rng, names, depth, lines, ind, counter):
             lines.append(f"{ind}let {i} = 0;")
             lines.append(f"{ind}while {cond} {{")
             lines.append(f"{ind}  {i} = {i} + 1;")
-            core_stmts(rng, names, depth + 1, lines, ind + "  ", counter)
+            core_stmts(rng, names, depth + 1, lines, ind + "  ", counter, core_expr)
             lines.append(ind + "}")
     return names
 
 
-def core_program(rng):
+def core_program(rng, typed=False):
     lines = []
-    names = core_stmts(rng, [], 0, lines, "", [0])
-    lines.append(core_expr(rng, names, 3))
+    ex = core_int if typed else core_expr
+    names = core_stmts(rng, [], 0, lines, "", [0], ex)
+    lines.append(ex(rng, names, 3))
     return "\n".join(lines) + "\n"
 
 
@@ -137,7 +161,7 @@ def cases(ctx):
     out += [Case(l, ("vm-" + t,), extra={"src": s}) for l, t, s in zip(vl, tags, srcs)]
     # the core fragment: the functional compiler model must equal the real compiler byte for byte,
     # its machine the real VM, and both the reference evaluation (theorem compile_correct)
-    csrcs = [core_program(ctx.rng) for _ in range(ctx.scale(3000, 150000))]
+    csrcs = [core_program(ctx.rng, typed=(k % 2 == 0)) for k in range(ctx.scale(3000, 150000))]
     cl = lang_lines(ctx, csrcs, op="core")
     out += [Case(l, ("core",), extra={"src": s}) for l, s in zip(cl, csrcs)]
     return out
